@@ -259,6 +259,419 @@ def direct_stream(run, name, fn, cases, to_coq, case_type, judge, keyf, rule, sk
     run.stream_info(name, rule=rule, skipped_near_float_threshold=skipped, raised=raised)
 
 
+# ------------------------------------------------------------------------------ generated tables (renders)
+
+WORDS = ['a', 'bb', 'ccc', 'dddd', 'eeeee', 'abcdefgh', 'aaaaaaaaaaaa', 'hhhhhhhhhhhhhhhhhhhh']
+BSTYLES = ['none', 'hidden', 'dotted', 'dashed', 'solid', 'double', 'groove', 'ridge', 'inset', 'outset']
+
+
+class Colors:
+    def __init__(self):
+        self.n = 0
+
+    def next(self):
+        self.n += 1
+        return 'rgb(%d,%d,%d)' % (self.n % 256, (self.n // 256) % 256, 7)
+
+
+def rand_border(rng, colors, p, collapse):
+    """border declarations for the four sides (each with probability p)."""
+    out = []
+    for side in ('top', 'right', 'bottom', 'left'):
+        if rng.random() < p:
+            if collapse:
+                st = rng.choice(BSTYLES + ['solid', 'solid', 'double', 'dashed'])
+                w = rng.choice([0, 1, 2, 2, 3, 3, 5])
+            else:
+                st, w = 'solid', rng.choice([0, 1, 2, 3])
+            out.append('border-%s:%dpx %s %s' % (side, w, st, colors.next()))
+    return out
+
+
+def gen_table(rng, tid, mode, thorough):
+    """returns (html, meta).  mode: 'layout' | 'borders' | 'split'."""
+    colors = Colors()
+    ncols = rng.choice([1, 2, 3, 4, 5, 6])
+    maxrows = 40 if (thorough or mode == 'split') else 12
+    nrows = rng.choice([1, 2, 3, 4, 6, 9, 12] if maxrows == 12 else [3, 6, 12, 20, 30, 40])
+    collapse = rng.random() < (0.9 if mode == 'borders' else 0.4)
+    fixed = rng.random() < (0.1 if mode == 'borders' else 0.4)
+    rtl = rng.random() < 0.3
+    spans = rng.random() < (0.3 if mode == 'split' else 0.5)
+    multiline = mode != 'split' or rng.random() < 0.25
+    # row groups: optional thead / tfoot, 1..2 bodies
+    nhead = rng.choice([0, 0, 1, 1, 2]) if nrows >= 3 else 0
+    nfoot = rng.choice([0, 0, 1, 1, 2]) if nrows - nhead >= 3 else 0
+    nbody = nrows - nhead - nfoot
+    if rng.random() < 0.3 and nbody >= 2:
+        k = rng.randint(1, nbody - 1)
+        bodies = [k, nbody - k]
+    else:
+        bodies = [nbody]
+    groups = ([('thead', nhead)] if nhead else []) + [('tbody', b) for b in bodies] + ([('tfoot', nfoot)] if nfoot else [])
+    if rng.random() < 0.2:
+        rng.shuffle(groups)             # the builder reorders header first / footer last
+    pborder = {'layout': 0.3, 'borders': 0.5, 'split': 0.15}[mode]
+    meta = dict(tid=tid, ncols=ncols, collapse=collapse, fixed=fixed, rtl=rtl, head=[], foot=[], body=[], multiline=multiline,
+                cells={})
+    html = []
+    # columns
+    if rng.random() < 0.45:
+        cols = []
+        k = 0
+        while k < ncols and rng.random() < 0.85:
+            st = []
+            r = rng.random()
+            if r < 0.4:
+                st.append('width:%dpx' % rng.choice([10, 30, 50, 80, 120]))
+            elif r < 0.6:
+                st.append('width:%d%%' % rng.choice([10, 20, 30, 50, 70]))
+            st += rand_border(rng, colors, pborder * 0.6, collapse)
+            sp = 2 if (rng.random() < 0.15 and k + 2 <= ncols) else 1
+            cols.append('<col%s style="%s">' % (' span=2' if sp == 2 else '', ';'.join(st)))
+            k += sp
+        if rng.random() < 0.5 and cols:
+            cut = rng.randint(1, len(cols))
+            gst = rand_border(rng, colors, pborder * 0.6, collapse)
+            if rng.random() < 0.2:
+                gst.append('width:%dpx' % rng.choice([40, 90]))
+            html.append('<colgroup style="%s">%s</colgroup>%s' % (';'.join(gst), ''.join(cols[:cut]), ''.join(cols[cut:])))
+        else:
+            html.append(''.join(cols))
+    rid = 0
+    for gi, (tag, n) in enumerate(groups):
+        occupied = [set() for _ in range(n)]
+        gst = rand_border(rng, colors, pborder * 0.5, collapse)
+        rows_html = []
+        for r in range(n):
+            rid += 1
+            row_id = '%sr%d' % (tid, rid)
+            (meta['head'] if tag == 'thead' else meta['foot'] if tag == 'tfoot' else meta['body']).append(row_id)
+            cells_html = []
+            x = 0
+            ci = 0
+            while x < ncols:
+                if x in occupied[r]:
+                    x += 1
+                    continue
+                run = 1
+                while x + run < ncols and (x + run) not in occupied[r]:
+                    run += 1
+                cs = rng.randint(1, min(run, 3)) if (spans and rng.random() < 0.3) else 1
+                rs = rng.randint(1, min(n - r, 3)) if (spans and rng.random() < 0.2) else 1
+                if rng.random() < 0.03 and mode != 'split':
+                    break                      # a short row: missing cells at the end
+                for rr in range(r + 1, r + rs):
+                    occupied[rr].update(range(x, x + cs))
+                ci += 1
+                cell_id = '%sc%d' % (row_id, ci)
+                st = ['padding:%dpx %dpx' % (rng.choice([0, 1, 2]), rng.choice([0, 1, 2, 4]))]
+                st += rand_border(rng, colors, pborder, collapse)
+                r2 = rng.random()
+                if r2 < 0.15:
+                    st.append('width:%dpx' % rng.choice([5, 20, 40, 75, 130]))
+                elif r2 < 0.25:
+                    st.append('width:%d%%' % rng.choice([10, 25, 40, 60]))
+                nwords = rng.choice([1, 1, 2, 3, 5]) if multiline else 1
+                text = ' '.join(rng.choice(WORDS[:6] if rng.random() < 0.9 else WORDS) for _ in range(nwords))
+                if rng.random() < 0.05:
+                    text = ''
+                meta['cells'][cell_id] = text
+                attrs = ''
+                if cs > 1:
+                    attrs += ' colspan=%d' % cs
+                if rs > 1:
+                    attrs += ' rowspan=%d' % rs
+                cells_html.append('<%s id=%s%s style="%s">%s</%s>' % ('th' if tag == 'thead' else 'td', cell_id, attrs,
+                                                                     ';'.join(st), text, 'th' if tag == 'thead' else 'td'))
+                x += cs
+            rst = rand_border(rng, colors, pborder * 0.5, collapse)
+            rows_html.append('<tr id=%s style="%s">%s</tr>' % (row_id, ';'.join(rst), ''.join(cells_html)))
+        html.append('<%s id=%sg%d style="%s">%s</%s>' % (tag, tid, gi, ';'.join(gst), ''.join(rows_html), tag))
+    # only the first thead / tfoot are header / footer: the generator emits at most one of each
+    tst = ['border-collapse:%s' % ('collapse' if collapse else 'separate')]
+    if not collapse or rng.random() < 0.3:
+        sp = rng.choice([0, 2, 5])
+        tst.append('border-spacing:%dpx %dpx' % (sp, rng.choice([sp, 0, 3])))
+    r = rng.random()
+    if fixed:
+        tst.append('table-layout:fixed')
+        tst.append('width:%s' % rng.choice(['100px', '200px', '350px', '600px', '50%', '100%', '20px'] + (['auto'] if r < 0.1 else [])))
+    elif r < 0.45:
+        tst.append('width:%s' % rng.choice(['60px', '150px', '300px', '500px', '40%', '100%', '130%']))
+    if rtl:
+        tst.append('direction:rtl')
+    if rng.random() < 0.3:
+        tst.append('margin-left:%s' % rng.choice(['auto', '10px', '0']))
+        tst.append('margin-right:%s' % rng.choice(['auto', '7px', '0']))
+    if rng.random() < 0.3:
+        tst.append('padding:%dpx' % rng.choice([1, 3]))
+    tst += rand_border(rng, colors, 0.5, collapse)
+    cap = ''
+    if rng.random() < 0.3:
+        cap = '<caption style="caption-side:%s">%s</caption>' % (rng.choice(['top', 'bottom']), rng.choice(['cap', 'a caption text']))
+    return '<table id=%s style="%s">%s%s</table>' % (tid, ';'.join(tst), cap, ''.join(html)), meta
+
+
+def gen_doc(rng, mode, thorough):
+    width = rng.choice([120, 200, 300, 450, 700])
+    if mode == 'split':
+        height = rng.choice([60, 90, 130, 200, 320])
+    else:
+        height = 200000
+    tables, metas = [], {}
+    for t in range(1 if mode == 'split' else rng.choice([1, 1, 2])):
+        h, m = gen_table(rng, 't%d' % t, mode, thorough)
+        tables.append(h)
+        metas[m['tid']] = m
+    before = '<p>aaa bbb</p>' if rng.random() < 0.5 else ''
+    html = ('<style>@page{size:1000px %dpx;margin:%dpx 0}html,body{margin:0}body{font-family:weasyprint;font-size:10px;'
+            'line-height:10px;width:%dpx}p{margin:0 0 3px}th{font-weight:normal}td,th{padding:0;vertical-align:%s}</style>%s%s'
+            % (height, rng.choice([0, 5]), width, rng.choice(['top', 'baseline', 'middle', 'bottom']), before,
+               '<p>bb</p>'.join(tables)))
+    return dict(html=html, meta=metas, mode=mode, page_h=height)
+
+
+STYLE_CTOR = {'none': 'Snone', 'hidden': 'Shidden', 'dotted': 'Sdotted', 'dashed': 'Sdashed', 'solid': 'Ssolid',
+              'double': 'Sdouble', 'groove': 'Sgroove', 'ridge': 'Sridge', 'inset': 'Sinset', 'outset': 'Soutset'}
+KIND_CTOR = {'cell': 'KCell', 'row': 'KRow', 'group': 'KGroup', 'col': 'KCol', 'colgroup': 'KColGroup', 'table': 'KTable'}
+
+
+def coq_border(b):
+    return "(mkb %s %s (%d)%%Z)" % (STYLE_CTOR[b[0]], qlit(Fraction(b[1])), b[2])
+
+
+def coq_borders_case(r):
+    boxes = '; '.join('(mktb %s %d%%nat %d%%nat %d%%nat %d%%nat %s)' % (
+        KIND_CTOR[b[0]], b[1], b[2], b[3], b[4], ' '.join(coq_border(x) for x in b[5])) for b in r['boxes'])
+    grid = lambda g: '[%s]' % '; '.join('[%s]' % '; '.join(coq_border(x) for x in row) for row in g)
+    return '(%s, %d%%nat, %d%%nat, [%s], %s, %s)' % (blit(r['rtl']), r['gw'], r['gh'], boxes, grid(r['v']), grid(r['h']))
+
+
+def coq_grid_case(t):
+    rows, cells = [], []
+    for g in t['groups']:
+        for r in g['rows']:
+            rows.append('(%s, %s)' % (qlit(Fraction(r['x'])), qlit(Fraction(r['w']))))
+            for c in r['cells']:
+                cells.append('(%d%%nat, %d%%nat, %s, %d%%nat, %s, %s)' % (
+                    c['gx'], c['span'], qlit(Fraction(c['bp'])), c['k'], qlit(Fraction(c['x'])), qlit(Fraction(c['w']))))
+    return '(%s, (%s, %s, %s), %s, %s, [%s], [%s])' % (
+        blit(t['rtl']), qlit(Fraction(t['cbx'])), qlit(Fraction(t['W'])), qlit(Fraction(t['spacing'])),
+        qlist(t['ws']), qlist(t['pos']), '; '.join(rows), '; '.join(cells))
+
+
+def has_bad(obj):
+    if isinstance(obj, str):
+        return obj.startswith('bad:')
+    if isinstance(obj, dict):
+        return any(has_bad(v) for v in obj.values())
+    if isinstance(obj, (list, tuple)):
+        return any(has_bad(v) for v in obj)
+    return False
+
+
+PEPS = 1e-6
+
+
+def monitor_fragment(t, meta):
+    """Python judge of one table fragment (geometry only, no model): returns list of (clause, detail)."""
+    bad = []
+    f = lambda x: float(Fraction(x))
+    ws = [f(w) for w in t['ws']]
+    s = f(t['spacing'])
+    n = len(ws)
+    if n and abs(f(t['W']) - (sum(ws) + (n + 1) * s)) > PEPS * max(1, f(t['W'])):
+        bad.append(('columns-plus-spacing-equal-table-width', (t['W'], t['ws'], t['spacing'])))
+    if any(w < -PEPS for w in ws):
+        bad.append(('column-width-non-negative', t['ws']))
+    for g in t['groups']:
+        rows = g['rows']
+        for ri, r in enumerate(rows):
+            for c in r['cells']:
+                if abs(f(c['y']) - f(r['y'])) > PEPS and not t.get('continued_first_row') == r['rid']:
+                    bad.append(('cells-share-row-top', (r['rid'], c['cid'], c['y'], r['y'])))
+                if c['rowspan'] == 1:
+                    if abs(f(c['bh']) - f(r['h'])) > PEPS:
+                        bad.append(('cell-height-equals-row-height', (c['cid'], c['bh'], r['h'])))
+                elif ri + c['rowspan'] - 1 < len(rows):
+                    last = rows[ri + c['rowspan'] - 1]
+                    if abs(f(c['y']) + f(c['bh']) - (f(last['y']) + f(last['h']))) > PEPS:
+                        bad.append(('rowspan-cell-ends-with-its-last-row', (c['cid'], c['y'], c['bh'], last['y'], last['h'])))
+                # widest unbreakable content (auto layout only: fixed layout does not look at content)
+                if not t['fixed'] and c['text'] and c['k'] >= 1 and c['gx'] + c['k'] <= n:
+                    need = max(len(w) for w in c['text'].split()) * 10 + f(c['bp']) if c['text'].split() else 0
+                    have = sum(ws[c['gx']:c['gx'] + c['k']]) + s * (c['k'] - 1)
+                    if have < need - 1e-4:
+                        bad.append(('column-at-least-widest-unbreakable-content', (c['cid'], need, have)))
+        for a, b in zip(rows, rows[1:]):
+            if f(b['y']) < f(a['y']) + f(a['h']) - PEPS:
+                bad.append(('rows-do-not-overlap', (a['rid'], b['rid'])))
+    return bad
+
+
+def monitor_split(tabs, meta, page_h):
+    """tabs: fragments of one table in page order.  Rows once, header/footer repeated where they fit."""
+    bad = []
+    f = lambda x: float(Fraction(x))
+    body_seen = []
+    frag_info = []
+    for t in tabs:
+        hdr = [g for g in t['groups'] if g['header']]
+        ftr = [g for g in t['groups'] if g['footer']]
+        body = [r for g in t['groups'] if not g['header'] and not g['footer'] for r in g['rows']]
+        frag_info.append((t, hdr, ftr, body))
+        body_seen.append([r['rid'] for r in body])
+    flat = [x for l in body_seen for x in l]
+    expected = meta['body']
+    # each body row appears, in order; a row may continue on the next fragment only as last/first row
+    dedup = []
+    for i, l in enumerate(body_seen):
+        for j, x in enumerate(l):
+            if dedup and dedup[-1] == x:
+                if not (j == 0 and i > 0 and body_seen[i - 1] and body_seen[i - 1][-1] == x):
+                    bad.append(('body-row-repeated', x))
+                elif not meta['multiline'] and not meta.get('tall_cells'):
+                    bad.append(('unsplittable-body-row-on-two-pages', x))
+                continue
+            dedup.append(x)
+    if dedup != expected:
+        missing = [x for x in expected if x not in dedup]
+        bad.append(('body-rows-once-in-order', dict(missing=missing[:5], got=dedup[:8], expected=expected[:8])))
+    # text of split rows: every word once
+    texts = {}
+    for t, hdr, ftr, body in frag_info:
+        for r in body:
+            for c in r['cells']:
+                texts.setdefault(c['cid'], []).append(c['text'])
+    for cid, parts in texts.items():
+        if cid in meta['cells'] and ''.join(parts).replace(' ', '') != meta['cells'][cid].replace(' ', ''):
+            bad.append(('cell-content-once', (cid, parts, meta['cells'][cid])))
+    # header / footer repetition
+    hh = max([f(g['h']) for t, hdr, ftr, body in frag_info for g in hdr] or [0])
+    fh = max([f(g['h']) for t, hdr, ftr, body in frag_info for g in ftr] or [0])
+    for idx, (t, hdr, ftr, body) in enumerate(frag_info):
+        sy = f(t['spacing_y'])
+        if meta['head'] and body and not hdr:
+            room = f(t['page_bottom']) - f(t['cby'])
+            first = min(f(r['h']) for r in body[:1])
+            need = hh + (fh if meta['foot'] else 0) + first + 4 * sy
+            if room >= need + 1 and idx > 0:
+                bad.append(('header-repeated-where-it-fits', dict(page=t['page'], room=room, need=need)))
+        if meta['foot'] and body and not ftr:
+            room = f(t['page_bottom']) - f(t['cby'])
+            first = min(f(r['h']) for r in body[:1])
+            need = fh + (hh if meta['head'] else 0) + first + 4 * sy
+            if room >= need + 1:
+                bad.append(('footer-repeated-where-it-fits', dict(page=t['page'], room=room, need=need)))
+        if (hdr or ftr) and not body and meta['body'] and len(flat) < len(meta['body']) + 10 and idx < len(frag_info) - 1:
+            bad.append(('header-or-footer-without-any-row', dict(page=t['page'])))
+        for g in hdr:
+            if [r['rid'] for r in g['rows']] != meta['head']:
+                bad.append(('header-rows-complete', dict(page=t['page'])))
+        for g in ftr:
+            if [r['rid'] for r in g['rows']] != meta['foot']:
+                bad.append(('footer-rows-complete', dict(page=t['page'])))
+        # nothing of the table below the page bottom (when more than one row fits)
+        for g in t['groups']:
+            for r in g['rows']:
+                if f(r['y']) + f(r['h']) > f(t['page_bottom']) + PEPS and len(body) + len(hdr) + len(ftr) > 1 and f(r['h']) < page_h - 20:
+                    bad.append(('row-inside-page', dict(page=t['page'], row=r['rid'], bottom=f(r['y']) + f(r['h']), page_bottom=t['page_bottom'])))
+    return bad
+
+
+GRID_T = 'grid_case'
+BORD_T = 'bool * nat * nat * list tbox * list (list border) * list (list border)'
+
+
+def render_stream(run, name, mode, ndocs, rng, thorough):
+    docs = [gen_doc(rng, mode, thorough) for _ in range(ndocs)]
+    outs = common.run_impl('impl_c10', 'render', [{'html': d['html']} for d in docs], limit=120, chunksize=4)
+    auto_c, fixed_c, grid_c, bord_c = [], [], [], []
+    n_tables = n_frag = n_pages = skipped = 0
+    oracle_bad = 0
+    keys = set()
+    for di, (d, (st, o)) in enumerate(zip(docs, outs)):
+        if st == 'timeout':
+            run.fail('render timeout', {'stream': name, 'html': d['html']}, signature='timeout')
+            continue
+        if st == 'exc':
+            run.fail('render raised %s at %s' % (o['type'], o['site']), {'stream': name, 'html': d['html'], 'exc': o},
+                     signature='crash:%s' % (o['site'],))
+            continue
+        n_pages += o['pages']
+        for r in o['auto']:
+            if 'hook_error' in r or has_bad(r):
+                skipped += 1
+                continue
+            if auto_near_threshold(r):
+                skipped += 1
+                continue
+            auto_c.append((di, r, coq_auto_case(r, r['out'])))
+        for r in o['fixed']:
+            if has_bad(r):
+                skipped += 1
+                continue
+            fixed_c.append((di, r, coq_fixed_case(r, r['out'])))
+        for r in o['borders']:
+            bord_c.append((di, r, coq_borders_case(r)))
+        by_tid = {}
+        for t in o['tables']:
+            if has_bad(t):
+                run.fail('non-finite table geometry', {'stream': name, 'html': d['html'], 'table': t['tid']}, signature='table-nonfinite')
+                continue
+            n_frag += 1
+            by_tid.setdefault(t['tid'], []).append(t)
+            grid_c.append((di, t, coq_grid_case(t)))
+            meta = d['meta'].get(t['tid'])
+            keys.add((len(t['ws']), t['rtl'], t['collapse'], t['fixed'], len(t['groups'])))
+            for clause, detail in monitor_fragment(t, meta)[:1]:
+                run.fail('table geometry clause %s fails: %s' % (clause, detail),
+                         {'stream': name, 'html': d['html'], 'clause': clause, 'table': t['tid'], 'page': t['page'], 'detail': detail},
+                         signature='table-geom:%s' % clause)
+        n_tables += len(by_tid)
+        if mode == 'split':
+            for tid, tabs in by_tid.items():
+                meta = d['meta'].get(tid)
+                if meta is None:
+                    continue
+                for clause, detail in monitor_split(tabs, meta, d['page_h'])[:1]:
+                    run.fail('split table clause %s fails: %s' % (clause, detail),
+                             {'stream': name, 'html': d['html'], 'clause': clause, 'table': tid, 'detail': detail},
+                             signature='table-split:%s' % clause)
+    for tag, cases, ty, judge, what in (
+            ('auto', auto_c, AUTO_T, 'auto_judge_r', 'auto_table_layout (recorded call)'),
+            ('fixed', fixed_c, FIXED_T, 'fixed_judge_r', 'fixed_table_layout (recorded call)'),
+            ('grid', grid_c, GRID_T, 'grid_judge', 'column positions and cell extents'),
+            ('borders', bord_c, BORD_T, 'borders_judge', 'collapsed_border_grid')):
+        if not cases:
+            continue
+        try:
+            masks = common.eval_cases('c10%s%s' % (name.replace('-', ''), tag), PRE, ty, [c for _, _, c in cases], judge,
+                                      per_file=60 if tag in ('borders', 'grid') else 200)
+        except RuntimeError as exc:
+            run.oblige('corr:%s/%s' % (name, tag), False, str(exc))
+            continue
+        mism = [(docs[di]['html'], r) for (di, r, _), m in zip(cases, masks) if m & 1]
+        run.oblige('corr:%s/%s(model vs implementation in full renders: %s)' % (name, tag, what), not mism,
+                   'first disagreement: %s' % json.dumps(mism[:1])[:3000])
+        for (di, r, _), m in zip(cases, masks):
+            if m & 2:
+                run.fail('%s: implementation output violates the specification' % what,
+                         {'stream': name, 'kind': tag, 'html': docs[di]['html'], 'record': r}, signature='%s-spec' % tag)
+                break
+        if tag == 'auto':
+            oracle_bad = sum(1 for m in masks if m & 4)
+        run.count('%s/%s' % (name, tag), len(cases), [(tag, i) for i in range(len(cases))])
+    run.count(name, len(docs), keys, samples=[docs[0]['html'][:700]])
+    run.stream_info(name, rule='generated tables (1..6 columns x 1..%d rows, thead/tbody/tfoot, col/colgroup widths px/%%/auto, '
+                    'colspan/rowspan tilings, cell widths, paddings, borders, spacing, both border models, both algorithms, '
+                    'captions, ltr/rtl, container widths 120..700): mode %s' % (40 if (thorough or mode == 'split') else 12, mode),
+                    documents=len(docs), tables=n_tables, fragments=n_frag, pages=n_pages, auto_calls=len(auto_c),
+                    fixed_calls=len(fixed_c), border_grids=len(bord_c), skipped_records=skipped,
+                    oracle_min_gt_max_or_insane=oracle_bad)
+
+
 DIST_T = 'nat * nat * Q * list col * option (list Q)'
 FIXED_T = 'Q * Q * list decl * list fcell * option (Q * list Q)'
 AUTO_T = 'option Q * (Q * Q * Q * Q) * list acol * option (Q * list Q)'
@@ -289,6 +702,9 @@ def check(run):
                   'stub context with an injected oracle: 0..6 columns, min<=max (10% deliberately insane), percentages, '
                   'constrained flags; table width below min / between guesses / exactly at a guess / above max',
                   skip=auto_near_threshold)
+    render_stream(run, 'render-layout', 'layout', 240 * n, rng, thorough)
+    render_stream(run, 'render-borders', 'borders', 160 * n, rng, thorough)
+    render_stream(run, 'render-split', 'split', 200 * n, rng, thorough)
 
 
 def replay(data):
